@@ -50,7 +50,7 @@ def _expected(mode, entry, main, files):
         rcls, line = sc.reference_outcome(files['helper.py'], 'helper.py')
         fname = 'helper.py'
     elif entry in ('call', 'evaluate', 'evaluate-expr'):
-        ns = {'__name__': '__main__'}
+        ns = {'__name__': '__main__', 'input': lambda prompt='': '6'}
         try:
             exec(compile(main, 'answer.py', 'exec'), ns)
         except BaseException:   # noqa
@@ -100,6 +100,7 @@ def body(ctx):
     sb.threaded = threaded
     sb.tracer_style = tracer
     sb.allowed_time = 20
+    sb.set_input([6, 2.5])            # the instructor queued numbers (inside a list) for a program that may read them
     snap = sc.GlobalState()
     try:
         if e2 in ('call', 'evaluate'):
